@@ -349,7 +349,7 @@ fn bfs_pair<S: Sc>(ctx: &Ctx, i: u8, j: u8, timeout: u64, cap_states: usize) -> 
 fn c15_for<S: Sc>(ctx: &Ctx, subs: &mut Vec<Sub>) {
     // R
     {
-        let cases = ctx.pick(2_000u64, 30_000, 400_000);
+        let cases = ctx.pick(2_000u64, 100_000, 400_000);
         let max_len = ctx.pick(32usize, 64, 300);
         let proto = Sub::new(
             &format!("{}_interleavings", S::NAME),
@@ -554,9 +554,17 @@ fn transparent_messages<S: Sc>(ch: u8) -> Vec<(u8, u8, u8)> {
                 }
             }
         }
+        // every first data byte (it must never be mistaken for a controller number) on 3 channels
+        for c in [ch, (ch + 8) % 16, 15 - ch] {
+            for a in 0..128u8 {
+                for b in [0u8, 127] {
+                    v.push((hi << 4 | c, a, b));
+                }
+            }
+        }
     }
     for lo in 0..16u8 {
-        for &a in &data {
+        for a in 0..128u8 {
             for &b in &data {
                 v.push((0xF0 | lo, a, b));
             }
@@ -609,6 +617,14 @@ fn c16_for<S: Sc>(ctx: &Ctx, subs: &mut Vec<Sub>) {
         for (st, path) in pool_for::<S>(ctx, ch, timeout, ctx.pick(60, 400, 4000)) {
             pool.push((ch, st, path));
         }
+        if S::KIND == Kind::Cc14 {
+            // plus one state per MSB controller number (a transparent message must not depend on which one is stored)
+            for (st, path) in pool_for_ext::<S>(ctx, ch, timeout, 400, true) {
+                if path.len() == 1 {
+                    pool.push((ch, st, path));
+                }
+            }
+        }
     }
     // (state, message) product
     {
@@ -617,7 +633,7 @@ fn c16_for<S: Sc>(ctx: &Ctx, subs: &mut Vec<Sub>) {
         let per = msgs[0].len() as u64;
         let proto = Sub::new(
             &format!("{}_state_x_transparent_message", S::NAME),
-            &format!("{} scanner: {} reachable states (single-channel fixpoint over an abstract contributing alphabet on channels {:?}{}) x {} non-contributing messages each (all non-CC channel statuses and all system statuses x data {{0,1,64,127}}^2; every non-contributing controller x all 128 values on 3 channels)", S::NAME, pool.len(), chans, if S::KIND == Kind::Polling { ", with polls and time steps" } else { "" }, per),
+            &format!("{} scanner: {} reachable states (single-channel fixpoint over an abstract contributing alphabet on channels {:?}{}) x {} non-contributing messages each (all non-CC channel statuses x data {{0,1,64,127}}^2 and x every first data byte on 3 channels; all system statuses x every first data byte x {{0,1,64,127}}; every non-contributing controller x all 128 values on 3 channels)", S::NAME, pool.len(), chans, if S::KIND == Kind::Polling { ", with polls and time steps" } else { "" }, per),
             "non-trivial = state is not the initial one",
             stride == 1,
         );
@@ -662,7 +678,7 @@ fn c16_for<S: Sc>(ctx: &Ctx, subs: &mut Vec<Sub>) {
     }
     // metamorphic insertion
     {
-        let cases = ctx.pick(1_500u64, 20_000, 300_000);
+        let cases = ctx.pick(1_500u64, 60_000, 300_000);
         let max_len = ctx.pick(32usize, 64, 300);
         let proto = Sub::new(
             &format!("{}_insertion", S::NAME),
@@ -828,12 +844,18 @@ fn check_reset_pool<S: Sc>(t: u64, st: &Run<S>, probes: &[Op]) -> CheckResult {
     let fresh = Run::<S> { sc: S::make(t), now: st.now };
     let differs = !st.eq_state(&fresh);
     let mut r = *st;
-    r.step(&Op::Reset);
-    ensure!(r.eq_state(&fresh), format!("{}/reset_not_equal_to_new", S::NAME), "after reset: {:?}\nnew: {:?}", r.sc, fresh.sc);
-    for p in probes.iter() {
-        let (mut r2, mut f2) = (r, fresh);
-        let (o1, o2) = (r2.step(p), f2.step(p));
-        ensure!(o1 == o2 && r2.eq_state(&f2), format!("{}/reset_scanner_reports_differently", S::NAME), "{:?}: {:?} vs {:?}", p, o1, o2);
+    // reset once, and again and again (an "O(1) reset" by generation counter must not wrap around
+    // into a state in which stale progress becomes valid again)
+    for k in 1..=258u32 {
+        r.step(&Op::Reset);
+        if k <= 2 || k >= 255 {
+            ensure!(r.eq_state(&fresh), format!("{}/reset_not_equal_to_new", S::NAME), "after {} reset(s): {:?}\nnew: {:?}", k, r.sc, fresh.sc);
+            for p in probes.iter() {
+                let (mut r2, mut f2) = (r, fresh);
+                let (o1, o2) = (r2.step(p), f2.step(p));
+                ensure!(o1 == o2 && r2.eq_state(&f2), format!("{}/reset_scanner_reports_differently", S::NAME), "after {} reset(s), {:?}: {:?} vs {:?}", k, p, o1, o2);
+            }
+        }
     }
     Ok(differs)
 }
@@ -879,7 +901,7 @@ fn c17_for<S: Sc>(ctx: &Ctx, subs: &mut Vec<Sub>) {
     }
     // R
     {
-        let cases = ctx.pick(1_500u64, 25_000, 400_000);
+        let cases = ctx.pick(1_500u64, 80_000, 400_000);
         let max_len = ctx.pick(32usize, 64, 300);
         let proto = Sub::new(
             &format!("{}_reset_and_copy", S::NAME),
